@@ -291,7 +291,8 @@ func (p *c02Pipe) mainLoop(g *goSite, cls string) *ast.ForStmt {
 			return true
 		}
 		has := false
-		ast.Inspect(fs.Body, func(x ast.Node) bool {
+		// (the condition and the post statement belong to every cycle too: `for dec.forward(dec.outputs[i]) {...}`)
+		ast.Inspect(fs, func(x ast.Node) bool {
 			switch y := x.(type) {
 			case *ast.FuncLit:
 				return false
